@@ -166,7 +166,7 @@ def props_check(pid: str) -> dict:
         if b.startswith("Closed"):
             res["assumptions"][nm] = []
         else:
-            res["assumptions"][nm] = sorted(set(re.findall(r"^([A-Za-z_][\w.']*)\s*:", b, flags=re.M)))
+            res["assumptions"][nm] = sorted(set(re.findall(r"^([A-Za-z_][\w.']*)\s*:", b, flags=re.M)) - {"Axioms"})
     res["discharged"] = len(theorems)
     res["wall_s"] = round(time.time() - t0, 2)
     return res
